@@ -1,4 +1,6 @@
 import NurbsVerif.Model.KnotRows
+import NurbsVerif.Model.InsertRowsA51
+import NurbsVerif.Model.KnotOpsCoded
 import NurbsVerif.Driver.Shape
 /- ops for the list-of-rows branches of the knot helpers and the volume gather / scatter (C04, C05, C06) -/
 namespace Drv
@@ -32,8 +34,43 @@ def rowsScript : Nat → Shape Rat → List String → Option String
       | none => return "ERR"
   | _, _, _ => none
 
+/-- fold a list of `(params, nums, check)` insertion requests through `insertKnotCoded` (the helper's loops as
+    coded); an exception aborts with `ERR` (operations level) -/
+def insSeqCoded : Shape Rat → List String → Option String
+  | S, [] => some (showShape S)
+  | S, ps :: ns :: chk :: rest => do
+      let params ← parseOptList ps
+      let nums ← parseNats ns
+      if params.length != S.pdim || nums.length != S.pdim then return "ERR"
+      if (List.range S.pdim).any (fun d => match params.getD d none with | some u => !inDomS S d u | none => false) then return "ERR"
+      let res := insertKnotCoded S params nums tolMult (chk == "1")
+      if res.2 then insSeqCoded res.1 rest else return "ERR"
+  | _, _ => none
+
 def handleKnotRows (toks : List String) : Option String :=
   match toks with
+  -- A5.1 AS CODED on rows (literal transcription `knotInsertionRowsA51`), same call and guard as `rowsins`
+  | ["rowsinsa51", p, us, rs, u, r, s, k] => do
+      let p ← p.toNat?; let U ← parseList us; let R ← parsePts2 rs; let u ← parseRat u
+      let r ← r.toNat?; let s ← s.toNat?; let k ← k.toNat?
+      if p = 0 || U.length != R.length + p + 1 || !isSortedB U || !rowsOk R || r + s > p || k < p || k ≥ R.length then return "ERR"
+      return showPts2 (knotInsertionRowsA51 p (fn U) R u r s k)
+  -- operations.insert_knot with the helper's loops as coded (point branch per iso-curve / rows branch for volumes)
+  | "insc" :: rest => do
+      let (S, rest) ← parseShape rest
+      if !shapeOk S then return "ERR"
+      insSeqCoded S rest
+  -- operations.refine_knotvector with A5.4 as coded (per iso-curve / on rows for volumes)
+  | "refc" :: rest => do
+      let (S, rest) ← parseShape rest
+      if !shapeOk S then return "ERR"
+      match rest with
+      | [ds] =>
+          let dens ← parseNats ds
+          if dens.length != S.pdim then return "ERR"
+          let res := refineKnotvectorCoded S dens tolMult
+          if res.2 then return showShape res.1 else return "ERR"
+      | _ => none
   -- helpers.knot_insertion(p, U, rows, u, num=r, s=s, span=k)
   | ["rowsins", p, us, rs, u, r, s, k] => do
       let p ← p.toNat?; let U ← parseList us; let R ← parsePts2 rs; let u ← parseRat u
